@@ -360,7 +360,9 @@ class Binding(object):
                     # more plain values than declared header parts: nothing
                     # to build them from (ready-made elements still go out)
                     continue
-                add(pts[n], header)
+                # None leaves the part out, as in the dict form
+                if header is not None:
+                    add(pts[n], header)
                 n += 1
         else:
             for pt in pts:
